@@ -45,7 +45,7 @@ func (self *ListRange) CheckListPreConstraints(r *ListRequest) (bool, error) {
 	if r.IsNavigation() {
 		return true, nil
 	}
-	if self.Selector.PathMatches(r.Base, r.Selection.Path) {
+	if self.names(r.Base, r.Selection.Path) {
 		if r.First {
 			if self.EndRow != -1 && self.StartRow >= self.EndRow {
 				// empty window
@@ -58,4 +58,12 @@ func (self *ListRange) CheckListPreConstraints(r *ListRequest) (bool, error) {
 		}
 	}
 	return true, nil
+}
+
+// names is true for the list the selector names. Lists inside its entries keep all their rows
+func (self *ListRange) names(base *Path, list *Path) bool {
+	if exp, ok := self.Selector.(*PathMatchExpression); ok {
+		return exp.PathIs(base, list)
+	}
+	return self.Selector.PathMatches(base, list)
 }
